@@ -311,6 +311,9 @@ pub struct RunCfg {
     /// (0 pending, 1 failed, 2 complete).
     #[serde(default)]
     pub pre_parts: Vec<u8>,
+    /// E2 runs with many pre-existing parts: nine in ten of them fail
+    #[serde(default)]
+    pub many_parts_fail: bool,
 }
 
 fn yes() -> bool {
@@ -405,6 +408,7 @@ pub fn base_cfg(rng: &mut Rng, profile: &str) -> RunCfg {
         pipeline_init: false,
         raw_opts: None,
         pre_parts: Vec::new(),
+        many_parts_fail: false,
     }
 }
 
@@ -418,6 +422,9 @@ pub struct HtlcSpec {
     /// by its own hash when it carries none).
     pub hash_ix: usize,
     pub htlc_hash: H32,
+    /// Bytes of `htlc_hash` sent as htlc.payment_hash (32 normally; shorter =
+    /// a proper prefix, 33 = one byte appended: never a match for any invoice).
+    pub hash_len: u8,
     pub amount_msat: u64,
     /// Absolute expiry = clamp(height_at_offer + off) unless `expiry_abs`.
     pub expiry_off: i64,
@@ -565,7 +572,34 @@ pub fn trunc_varint(rng: &mut Rng) -> Vec<u8> {
 
 /// Malformed metadata values (the bytes inside record 16).
 pub fn malformed_metadata(rng: &mut Rng, invoice: &[u8]) -> (Vec<u8>, &'static str) {
-    match rng.below(12) {
+    match rng.below(15) {
+        12 => {
+            // A good invoice record, then an amount record that announces 8
+            // bytes and carries 1..7 (a decoder that clamps instead of
+            // rejecting reads a much smaller amount).
+            let mut v = encode_tlv(&[(33001, invoice.to_vec())]);
+            super::reference::write_bigsize(&mut v, 33003);
+            v.push(8);
+            let have = 1 + rng.below(7) as usize;
+            v.extend_from_slice(&1_000_000u64.to_be_bytes()[..have]);
+            (v, "meta:amount-record-cut-short")
+        }
+        13 => {
+            // The invoice record itself announces more bytes than there are.
+            let mut v = Vec::new();
+            super::reference::write_bigsize(&mut v, 33001);
+            super::reference::write_bigsize(&mut v, invoice.len() as u64 + 1 + rng.below(300));
+            v.extend_from_slice(invoice);
+            (v, "meta:invoice-record-cut-short")
+        }
+        14 => {
+            // good invoice + good amount, then an unknown record cut short
+            let mut v = encode_tlv(&[(33001, invoice.to_vec()), (33003, tu64_min(1_000_000))]);
+            super::reference::write_bigsize(&mut v, 33005);
+            v.push(4);
+            v.extend_from_slice(&[1, 2][..rng.below(3) as usize]);
+            (v, "meta:trailing-record-cut-short")
+        }
         0 => (trunc_varint(rng), "meta:type-varint-truncated"),
         1 => {
             // type fine, length varint truncated
@@ -843,6 +877,7 @@ pub fn gen_set(content_seed: u64, set_ix: u32, cfg: &RunCfg, force_hash: Option<
             htlcs: vec![HtlcSpec {
                 hash_ix,
                 htlc_hash: pool.hashes[hash_ix],
+                hash_len: 32,
                 amount_msat: 1000,
                 expiry_off: 2000,
                 expiry_abs: None,
@@ -860,7 +895,7 @@ pub fn gen_set(content_seed: u64, set_ix: u32, cfg: &RunCfg, force_hash: Option<
         return gen_nontrampoline(r, cfg, set_ix, hash_ix);
     }
     if r.permille(cfg.f_malformed) {
-        let inv = pool.inv(hash_ix, InvKind::Fixed);
+        let inv = pool.inv(hash_ix, if r.chance(1, 2) { InvKind::Fixed } else { InvKind::Amountless });
         let (meta, tag) = malformed_metadata(r, inv.bolt11.as_bytes());
         let payload = onion_payload_ext(1000, 500, 1000, Some(&meta), r.below(8) as u8 | if cfg.chunking == 0 { 8 } else { 0 });
         return SetSpec {
@@ -870,6 +905,7 @@ pub fn gen_set(content_seed: u64, set_ix: u32, cfg: &RunCfg, force_hash: Option<
             htlcs: vec![HtlcSpec {
                 hash_ix,
                 htlc_hash: pool.hashes[hash_ix],
+                hash_len: 32,
                 amount_msat: 1000,
                 expiry_off: 2000,
                 expiry_abs: None,
@@ -1049,17 +1085,20 @@ pub fn gen_set(content_seed: u64, set_ix: u32, cfg: &RunCfg, force_hash: Option<
         let total_msat = if r.chance(1, 12) { None } else { Some(decl) };
         let payload = onion_payload(forward, 500, decl, Some(&meta), r.chance(1, 6));
         let mut htlc_hash = pool.hashes[hash_ix];
+        let mut hash_len = 32u8;
         if mismatch && (i == 0 || r.chance(1, 2)) {
-            htlc_hash = if r.chance(1, 2) {
-                pool.hashes[(hash_ix + 1) % NH]
-            } else {
-                [0xee; 32]
-            };
+            match r.below(3) {
+                0 => htlc_hash = pool.hashes[(hash_ix + 1) % NH],
+                1 => htlc_hash = [0xee; 32],
+                // the right bytes, the wrong length
+                _ => hash_len = *r.pick(&[0u8, 1, 16, 31, 33]),
+            }
             tag = "hash-mismatch";
         }
         htlcs.push(HtlcSpec {
             hash_ix,
             htlc_hash,
+            hash_len,
             amount_msat: *p,
             expiry_off: off,
             expiry_abs,
@@ -1135,6 +1174,7 @@ fn gen_nontrampoline(r: &mut Rng, cfg: &RunCfg, set_ix: u32, hash_ix: usize) -> 
         htlcs: vec![HtlcSpec {
             hash_ix,
             htlc_hash: pool.hashes[hash_ix],
+            hash_len: 32,
             amount_msat: 1000,
             expiry_off: 2000,
             expiry_abs: None,
@@ -1162,6 +1202,7 @@ pub fn probe_set(cfg: &RunCfg, hash_ix: usize, overpay: u64) -> Option<HtlcSpec>
     Some(HtlcSpec {
         hash_ix,
         htlc_hash: pool.hashes[hash_ix],
+        hash_len: 32,
         amount_msat: total,
         expiry_off: cfg.policy_delta as i64 + cfg.cltv_delta as i64 + 100,
         expiry_abs: None,
